@@ -19,9 +19,11 @@
 #include <yaclib/async/when_any.hpp>
 #include <yaclib/coro/await.hpp>
 #include <yaclib/coro/await_on.hpp>
+#include <yaclib/coro/await_sticky.hpp>
 #include <yaclib/coro/future.hpp>
 #include <yaclib/coro/mutex.hpp>
 #include <yaclib/coro/on.hpp>
+#include <yaclib/coro/shared_future.hpp>
 #include <yaclib/coro/shared_mutex.hpp>
 #include <yaclib/exe/strand.hpp>
 #include <yaclib/exe/submit.hpp>
@@ -200,9 +202,18 @@ void GetWait(const Case& c, Err& err) {
   producer.join();
 }
 
+// a SharedFuture whose shared state is a coroutine promise (its own reference counter and move-out decision)
+yaclib::SharedFuture<Heavy> SharedCo(yaclib::Future<int> gate) {
+  (void)co_await std::move(gate);
+  co_return Heavy{3};
+}
+
 void SharedObservers(const Case& c, Err& err) {
   const int observers = 2 + c.H(1) % 3, variant = c.H(4) % 4, skew_p = c.H(2) % 8;
-  auto [sf, sp] = yaclib::MakeSharedContract<Heavy>();
+  const bool from_coroutine = c.H(5) % 2 == 1;
+  auto [sf0, sp] = yaclib::MakeSharedContract<Heavy>();
+  auto [gate, gate_p] = yaclib::MakeContract<int>();
+  auto sf = from_coroutine ? SharedCo(std::move(gate)) : std::move(sf0);
   Box box;
   std::latch done{observers};
   std::vector<std::thread> ts;
@@ -249,10 +260,14 @@ void SharedObservers(const Case& c, Err& err) {
     });
   }
   { auto dropped = std::move(sf); }
-  std::thread producer([&box, skew_p, sp = std::move(sp)]() mutable {
+  std::thread producer([&box, skew_p, from_coroutine, sp = std::move(sp), gate_p = std::move(gate_p)]() mutable {
     Spin(skew_p);
     box.Write(9);
-    std::move(sp).Set(Heavy{3});
+    if (from_coroutine) {
+      std::move(gate_p).Set(1);  // the coroutine resumes here and co_returns the value
+    } else {
+      std::move(sp).Set(Heavy{3});
+    }
   });
   done.wait();
   for (auto& t : ts) {
@@ -290,7 +305,77 @@ void LastOwner(const Case& c, Err& err) {
   }
 }
 
+// strand jobs while the pool underneath is being stopped: what a submitter wrote before Submit must be visible in Call
+// and in Drop (Strand::Drop walks nodes pushed by other threads), called jobs stay ordered among themselves
+struct StoppableJob final : yaclib::Job {
+  Box in;
+  int id = 0;
+  long* counter = nullptr;
+  std::atomic<int>* calls = nullptr;
+  std::latch* done = nullptr;
+  Err* err = nullptr;
+  void Call() noexcept final {
+    if (!in.Check(id)) {
+      err->Set("strand job does not see what its submitter wrote before Submit");
+    }
+    ++*counter;
+    calls->fetch_add(1, std::memory_order_relaxed);
+    done->count_down();
+  }
+  void Drop() noexcept final {
+    if (!in.Check(id)) {
+      err->Set("dropped strand job does not see what its submitter wrote before Submit");
+    }
+    done->count_down();
+  }
+};
+void StrandJobsStopped(const Case& c, Err& err) {
+  const int submitters = 2 + c.H(1) % 3, jobs = 1 + c.H(2) % 6, workers = 1 + c.H(3) % 3;
+  yaclib::FairThreadPool tp{static_cast<std::uint64_t>(workers)};
+  auto strand = (c.H(4) & 1) != 0 ? yaclib::MakeStrand(yaclib::MakeStrand(&tp)) : yaclib::MakeStrand(&tp);
+  long counter = 0;
+  std::atomic<int> calls{0};
+  std::latch done{submitters * jobs};
+  std::vector<StoppableJob> all(static_cast<std::size_t>(submitters * jobs));
+  std::vector<std::thread> ts;
+  for (int s = 0; s < submitters; ++s) {
+    ts.emplace_back([&, s, skew = (c.H(5) >> s) % 8] {
+      for (int j = 0; j < jobs; ++j) {
+        Spin(skew);
+        auto& job = all[static_cast<std::size_t>(s * jobs + j)];
+        job.id = s * jobs + j;
+        job.counter = &counter;
+        job.calls = &calls;
+        job.done = &done;
+        job.err = &err;
+        job.in.Write(job.id);
+        strand->Submit(job);
+      }
+    });
+  }
+  std::thread stopper([&, skew = (c.H(5) >> 6) % 64, hard = (c.H(4) >> 2) % 2 == 1] {
+    Spin(skew * 4);
+    if (hard) {
+      tp.HardStop();
+    } else {
+      tp.Stop();
+    }
+  });
+  done.wait();
+  for (auto& t : ts) {
+    t.join();
+  }
+  stopper.join();
+  tp.Wait();
+  if (counter != calls.load()) {
+    err.Set("called strand jobs lost an increment of a plain counter while the pool was being stopped");
+  }
+}
+
 void StrandJobs(const Case& c, Err& err) {
+  if ((c.H(4) >> 1) % 2 == 1) {
+    return StrandJobsStopped(c, err);
+  }
   const int submitters = 2 + c.H(1) % 3, jobs = 1 + c.H(2) % 6, workers = 1 + c.H(3) % 3;
   yaclib::FairThreadPool tp{static_cast<std::uint64_t>(workers)};
   auto strand = (c.H(4) & 1) != 0 ? yaclib::MakeStrand(yaclib::MakeStrand(&tp)) : yaclib::MakeStrand(&tp);
@@ -375,17 +460,42 @@ template <bool B, bool F>
 yaclib::Future<> MutexWorker(yaclib::IExecutor& e, yaclib::Mutex<B, F>& m, long& counter, int rounds, int form) {
   co_await On(e);
   for (int i = 0; i < rounds; ++i) {
-    if ((form + i) % 3 == 0) {
-      auto g = co_await m.Guard();
-      ++counter;
-    } else if ((form + i) % 3 == 1) {
-      co_await m.Lock();
-      ++counter;
-      co_await m.Unlock();
-    } else {
-      co_await m.Lock();
-      ++counter;
-      m.UnlockHere();
+    switch ((form + i) % 6) {
+      case 0: {
+        auto g = co_await m.Guard();
+        ++counter;
+        break;
+      }
+      case 1:
+        co_await m.Lock();
+        ++counter;
+        co_await m.Unlock();
+        break;
+      case 2:
+        co_await m.Lock();
+        ++counter;
+        m.UnlockHere();
+        break;
+      case 3:  // Try forms: the acquiring CAS of a successful try is the only edge from the previous section
+        if (!m.TryLock()) {
+          co_await m.Lock();
+        }
+        ++counter;
+        m.UnlockHere();
+        break;
+      case 4: {
+        auto g = m.TryGuard();
+        if (!g) {
+          g = co_await m.Guard();
+        }
+        ++counter;
+        break;
+      }
+      default: {
+        auto g = co_await m.GuardSticky();
+        ++counter;
+        co_await g.Unlock();
+      }
     }
   }
   co_return{};
@@ -427,12 +537,41 @@ template <bool F, bool RF>
 yaclib::Future<> RWWorker(yaclib::IExecutor& e, yaclib::SharedMutex<F, RF>& m, long& value, long& sink, bool writer, int rounds) {
   co_await On(e);
   for (int i = 0; i < rounds; ++i) {
+    const int form = (i + rounds) % 3;
     if (writer) {
-      auto g = co_await m.Guard();
-      ++value;
+      if (form == 0) {
+        auto g = co_await m.Guard();
+        ++value;
+      } else if (form == 1) {
+        if (!m.TryLock()) {
+          co_await m.Lock();
+        }
+        ++value;
+        m.UnlockHere();
+      } else {
+        auto g = m.TryGuard();
+        if (!g) {
+          g = co_await m.Guard();
+        }
+        ++value;
+      }
     } else {
-      auto g = co_await m.GuardShared();
-      sink = value;  // plain read; each reader has its own sink
+      if (form == 0) {
+        auto g = co_await m.GuardShared();
+        sink = value;  // plain read; each reader has its own sink
+      } else if (form == 1) {
+        if (!m.TryLockShared()) {
+          co_await m.LockShared();
+        }
+        sink = value;
+        m.UnlockHereShared();
+      } else {
+        auto g = m.TryGuardShared();
+        if (!g) {
+          g = co_await m.GuardShared();
+        }
+        sink = value;
+      }
     }
   }
   co_return{};
@@ -537,9 +676,77 @@ void Combinators(const Case& c, Err& err) {
   }
 }
 
+// coroutine waiters: with a late start the group / event is already released and await_ready (Ready()) is the only edge
+yaclib::Future<int> GroupAwaiter(yaclib::WaitGroup<>& wg, yaclib::IExecutor& e, std::vector<Box>& boxes, Err& err, int form) {
+  if (form == 0) {
+    co_await wg;
+  } else if (form == 1) {
+    co_await On(e);
+    co_await wg.AwaitSticky();
+  } else {
+    co_await wg.AwaitOn(e);
+  }
+  for (std::size_t i = 0; i < boxes.size(); ++i) {
+    if (!boxes[i].Check(static_cast<long>(i) + 20)) {
+      err.Set("a coroutine resumed from co_await on the WaitGroup does not see the writes made before Done");
+    }
+  }
+  co_return 1;
+}
+yaclib::Future<int> EventAwaiter(yaclib::OneShotEvent& ev, yaclib::IExecutor& e, Box& box, Err& err, int form) {
+  if (form == 0) {
+    co_await ev;
+  } else if (form == 1) {
+    co_await On(e);
+    co_await ev.AwaitSticky();
+  } else {
+    co_await ev.AwaitOn(e);
+  }
+  if (!box.Check(20)) {
+    err.Set("a coroutine resumed from co_await on the OneShotEvent does not see the writes made before Set");
+  }
+  co_return 1;
+}
+
 void WaitGroupShape(const Case& c, Err& err) {
   const int workers = 1 + c.H(1) % 4, variant = c.H(2) % 4;
   std::vector<Box> boxes(static_cast<std::size_t>(workers));
+  if (c.H(4) % 2 == 1) {
+    // coroutine waiters on a group / event that may already be released when they arrive
+    const int form = c.H(2) % 3, skew_c = c.H(5) % 64;
+    yaclib::FairThreadPool tp{1};
+    if (c.H(1) % 2 == 0) {
+      yaclib::WaitGroup<> wg{static_cast<std::size_t>(workers)};
+      std::vector<std::thread> ts;
+      for (int i = 0; i < workers; ++i) {
+        ts.emplace_back([&, i, skew = (c.H(3) >> (2 * i)) % 8] {
+          Spin(skew);
+          boxes[static_cast<std::size_t>(i)].Write(i + 20);
+          wg.Done();
+        });
+      }
+      Spin(skew_c * 8);
+      auto co = GroupAwaiter(wg, tp, boxes, err, form);
+      (void)std::move(co).Get();
+      for (auto& t : ts) {
+        t.join();
+      }
+    } else {
+      yaclib::OneShotEvent ev;
+      std::thread setter([&, skew = c.H(3) % 8] {
+        Spin(skew);
+        boxes[0].Write(20);
+        ev.Set();
+      });
+      Spin(skew_c * 8);
+      auto co = EventAwaiter(ev, tp, boxes[0], err, form);
+      (void)std::move(co).Get();
+      setter.join();
+    }
+    tp.Stop();
+    tp.Wait();
+    return;
+  }
   if (variant < 3) {
     yaclib::WaitGroup<> wg{static_cast<std::size_t>(workers)};
     std::vector<std::thread> ts;
@@ -596,9 +803,83 @@ yaclib::Future<int> Awaiter(yaclib::Future<int> f, yaclib::Future<int>& g, Box& 
   co_return 1;
 }
 
+// two futures fulfilled by two threads; depending on the consumer's start skew the coroutine finds them both ready in
+// await_ready (no suspension: the counter read there is the only edge), suspends and is resumed by the last one, or
+// anything in between
+yaclib::Future<int> MultiAwaiter(std::vector<yaclib::Future<int>>& fs, yaclib::SharedFuture<int> sf, Box& b0, Box& b1, Err& err, int form,
+                                 yaclib::IExecutor& e) {
+  co_await On(e);
+  switch (form) {
+    case 0:
+      co_await Await(fs[0], fs[1]);
+      break;
+    case 1:
+      co_await AwaitOn(e, fs[0], fs[1]);
+      break;
+    case 2:
+      co_await AwaitSticky(fs[0], fs[1]);
+      break;
+    case 3:
+      co_await Await(fs.begin(), std::size_t{2});
+      break;
+    case 4:
+      co_await Await(fs.begin(), fs.end());
+      break;
+    case 5:
+      co_await Await(sf, fs[0]);
+      break;
+    case 6:
+      co_await AwaitSticky(fs[1]);
+      (void)co_await sf;
+      break;
+    default:
+      co_await AwaitOn(e, fs.begin(), fs.end());
+  }
+  const bool uses0 = form != 6, uses1 = form != 5;
+  if ((uses0 && !b0.Check(44)) || (uses1 && !b1.Check(55))) {
+    err.Set("coroutine resumed from Await(fs...) does not see what the producers wrote before Set");
+  }
+  if ((uses0 && std::as_const(fs[0]).Touch().Ok() != 1) || (uses1 && std::as_const(fs[1]).Touch().Ok() != 2)) {
+    err.Set("Await(fs...) resumed but a future does not hold its value");
+  }
+  co_return 1;
+}
+
 void CoAwaitShape(const Case& c, Err& err) {
   const int form = c.H(1) % 3, skew_p = c.H(2) % 8;
   yaclib::FairThreadPool tp{1};
+  if (c.H(4) % 3 != 0) {
+    // multi-future forms
+    const int mform = c.H(1) % 8, skew_c = c.H(3) % 64, skew_q = c.H(5) % 8;
+    std::vector<yaclib::Future<int>> fs;
+    std::vector<yaclib::Promise<int>> ps;
+    for (int i = 0; i < 2; ++i) {
+      auto [f, p] = yaclib::MakeContract<int>();
+      fs.push_back(std::move(f));
+      ps.push_back(std::move(p));
+    }
+    auto [sf, sp] = yaclib::MakeSharedContract<int>();
+    Box b0, b1;
+    std::thread p0([&b0, skew_p, p = std::move(ps[0])]() mutable {
+      Spin(skew_p);
+      b0.Write(44);
+      std::move(p).Set(1);
+    });
+    std::thread p1([&b1, skew_q, p = std::move(ps[1]), sp = std::move(sp)]() mutable {
+      Spin(skew_q);
+      b1.Write(55);
+      std::move(p).Set(2);
+      std::move(sp).Set(3);
+    });
+    Spin(skew_c * 8);  // from "both still pending" to "both long ready"
+    auto co = MultiAwaiter(fs, sf, b0, b1, err, mform, tp);
+    (void)std::move(co).Get();
+    p0.join();
+    p1.join();
+    tp.Stop();
+    tp.Wait();
+    return;
+  }
   auto [f, p] = yaclib::MakeContract<int>();
   auto [g, pg] = yaclib::MakeContract<int>();
   Box box;
